@@ -8,7 +8,9 @@ MANIFEST = {
             "classes the declaration admits (union arguments included), that a positional call with an accepted count "
             "whose arguments all fit yields no error from checkAndPropagateArgs in any round, and that the end-to-end "
             "spec predicate `certainly_fits` implies acceptance. Tie and end-to-end evaluation as for C07, restricted "
-            "to rows before the first definite error.",
+            "to rows before the first definite error; scenario families add calls of the shipped configuration in other "
+            "layouts (operator at the end of a line, leading-dot chains, `rescue` modifier, `;`-separated statements, one-line "
+            "blocks), none of whose lines may carry a diagnostic.",
     "note": "Trusted: as C07.",
     "technique": "Coq proof over Gallina models of checkArgType/checkAndPropagateArgs; correspondence by vm_compute; "
                  "spec predicate evaluated in Coq against ti end-to-end",
